@@ -566,7 +566,7 @@ def main(argv=None):
                 with ThreadPoolExecutor(max_workers=8) as ex:
                     results = list(ex.map(one, todo[:16])) + [(sig, v, v["case"], v["detail"]) for sig, v in todo[16:]]
                 for sig, v, case, detail in results:
-                    odir = os.path.join(VERIF, "out", "replays", pid)
+                    odir = os.path.join(os.environ.get("VERIF_OUT") or os.path.join(VERIF, "out"), "replays", pid)
                     os.makedirs(odir, exist_ok=True)
                     rp = os.path.join(odir, "%s-%s.json" % (slug(sig), jhash(case)))
                     with open(rp, "w") as f:
